@@ -302,6 +302,9 @@ def run(ctx):
         for flux in space.fluxes(space.make_model(spec)):
             for rname in recs:
                 cfg.append((mname, flux, rname, ctx.tier))
+    if not th:
+        # every other reconstruction name on one scalar and one system configuration
+        cfg += [(mname, flux, rname, ctx.tier) for rname in space.X1_REST for mname, flux in (("convection+", None), ("euler1d", "hllc")) if mname in MODELS]
     ctx.pmap("shift-1d", shard_1d, cfg)
     first = {}
     for c in cfg:
